@@ -530,6 +530,8 @@ var indexFamily = map[string]bool{
 	"strings.LastIndex": true, "strings.LastIndexByte": true, "strings.LastIndexAny": true,
 	"bytes.Index": true, "bytes.IndexByte": true, "bytes.IndexRune": true, "bytes.IndexAny": true,
 	"bytes.LastIndex": true, "bytes.LastIndexByte": true,
+	// the package's own first-occurrence search that leaves quoted-strings alone (fix D23)
+	"indexUnquoted": true,
 }
 
 // isIndexResult: v is the result of a strings/bytes Index* call (>= -1 by contract).
